@@ -41,7 +41,7 @@ pub const POOLS: &[Pool] = &[
         lits: &["a", "ab", "abc", "b", "bc", "c", "abcd", "ba"],
         res: &[
             r"a+", r"ab*", r"(ab)+", r"a|ab", r"[a-c]+", r"abc?", r"a*", r"b?", r"[ab]{2}", r"a{2,3}", r"(a|b)*c", r"(?:a|b)+",
-            r"ab|abcd", r"a.c", r"[^ab]",
+            r"ab|abcd", r"a.c", r"[^ab]", r"a(?:b+)?", r"c(?:a{2})?", r"(?:ab{1,2})?c",
         ],
     },
     Pool {
